@@ -225,7 +225,7 @@ def check(pid, prop, tier, seed, work):
 
     # 2. exploration
     quick = tier == "quick"
-    time_cap = float(os.environ.get("VERIF_TIME_CAP", getattr(prop, "TIME_CAP", {}).get(tier, 120 if quick else 1500)))
+    time_cap = float(os.environ.get("VERIF_TIME_CAP", getattr(prop, "TIME_CAP", {}).get(tier, 120 if quick else 420)))
     watchdog = time_cap * 3 + 120
     nshards = getattr(prop, "NSHARDS", NPROC)
     results, problems = run_workers(pid, tier, seed, work, nshards, time_cap, watchdog)
